@@ -28,6 +28,7 @@ func genPrograms(tier string) string {
 		"for i := 0; i < n && i < 3; i++ { %s }",
 		"for i := 0; i < n && i < 3; i++ { %s; if x > 5 { break }; %s }",
 		"for i := 0; i < n && i < 3; i++ { if c { %s; continue }; %s }",
+		"for i := 0; i < n && i < 4; i++ { if i%%2 == 0 { %s } else { %s } }",
 		"if x > 3 { %s; return x + y }",
 		"if c { %s; goto done }",
 	}
@@ -58,12 +59,16 @@ func genPrograms(tier string) string {
 	sb.WriteString("package irc\n\n")
 	k := 0
 	emit := func(body ...string) {
-		k++
-		fmt.Fprintf(&sb, "func Gen%d(c bool, n int, a, b int) int {\n\tx, y := a, b\n", k)
-		for _, s := range body {
-			sb.WriteString("\t" + s + "\n")
+		// two epilogues: both locals live at the end, or only y (so that x is
+		// live only where the body reads it)
+		for _, epi := range []string{"return x*31 + y", "return y"} {
+			k++
+			fmt.Fprintf(&sb, "func Gen%d(c bool, n int, a, b int) int {\n\tx, y := a, b\n\t_, _ = x, y\n", k)
+			for _, s := range body {
+				sb.WriteString("\t" + s + "\n")
+			}
+			sb.WriteString("\tgoto done\ndone:\n\t" + epi + "\n}\n\n")
 		}
-		sb.WriteString("\tgoto done\ndone:\n\treturn x*31 + y\n}\n\n")
 	}
 	for _, s := range stmts {
 		emit(s)
